@@ -369,7 +369,7 @@ func (b *TableColumnGroupBox) span() int {
 	if len(b.Children) != 0 {
 		return len(b.Children)
 	}
-	return integerAttribute(utils.HTMLNode(*b.Element).Get("span"), 1)
+	return integerAttribute(utils.HTMLNode(*b.Element).Get("span"), 1, maxSpan)
 }
 
 // Return cells that originate in the group's columns.
@@ -390,12 +390,20 @@ func NewTableColumnBox(style pr.ElementStyle, element *html.Node, pseudoType str
 }
 
 func (b *TableColumnBox) span() int {
-	return integerAttribute(utils.HTMLNode(*b.Element).Get("span"), 1)
+	return integerAttribute(utils.HTMLNode(*b.Element).Get("span"), 1, maxSpan)
 }
+
+// Limits from the HTML standard, which requires user agents to clamp
+// span and colspan to 1000 and rowspan to 65534:
+// https://html.spec.whatwg.org/multipage/tables.html#attr-tdth-colspan
+const (
+	maxSpan    = 1000
+	maxRowspan = 65534
+)
 
 // Read an integer attribute from the HTML element.
 // If is invalid, it default to 1
-func integerAttribute(attr string, minimum int) int {
+func integerAttribute(attr string, minimum, maximum int) int {
 	value := strings.TrimSpace(attr)
 	intValue, err := strconv.Atoi(value)
 	if err != nil {
@@ -403,6 +411,9 @@ func integerAttribute(attr string, minimum int) int {
 	}
 	if intValue < minimum {
 		intValue = minimum
+	}
+	if intValue > maximum {
+		intValue = maximum
 	}
 	return intValue
 }
@@ -416,8 +427,8 @@ func NewTableCellBox(style pr.ElementStyle, element *html.Node, pseudoType strin
 	// but HTML 5 removed it
 	// http://www.w3.org/TR/html5/tabular-data.html#attr-tdth-colspan
 	// rowspan=0 is still there though.
-	out.Colspan = integerAttribute(utils.HTMLNode(*element).Get("colspan"), 1)
-	out.Rowspan = integerAttribute(utils.HTMLNode(*element).Get("rowspan"), 0)
+	out.Colspan = integerAttribute(utils.HTMLNode(*element).Get("colspan"), 1, maxSpan)
+	out.Rowspan = integerAttribute(utils.HTMLNode(*element).Get("rowspan"), 0, maxRowspan)
 	return &out
 }
 
